@@ -386,9 +386,9 @@ def challenges_unchanged(f):
     if kind == 'transcript':
         alt = {'verify_label': 'alt'}
     elif kind == 'H':
-        alt = {'tamper_statement': {'op': 'h_base'}}
+        alt = {'tamper_statement': {'op': 'h_base', 'from_used': bool(d.get('from_used'))}}
     elif kind == 'G':
-        alt = {'tamper_statement': {'op': 'g_base', 'k': idx}}
+        alt = {'tamper_statement': {'op': 'g_base', 'k': idx, 'from_used': bool(d.get('from_used'))}}
     elif kind == 'commitment':
         alt = {'tamper_statement': {'op': 'commitment_add_delta_basis', 'j': idx, 'basis': {'b': 'h'}}}
     elif kind == 'promise':
